@@ -2,9 +2,9 @@ package absint
 
 import (
 	"fmt"
-	"os"
 	"go/types"
 	"math/big"
+	"os"
 
 	"golang.org/x/tools/go/ssa"
 )
@@ -302,7 +302,6 @@ func (it *Interp) bigModel(fr *Frame, x *ssa.Call, key string, args []Value) (Va
 	return nil, false
 }
 
-
 // expLeaf: the product of operands i and j of a Fiat Mul/Square as one formal power (fexp.go), when both are powers
 // of one base with a symbolic exponent.  The operands are read with their look-up tests completed.
 func (it *Interp) expLeaf(f *Field, args []Value, i, j int) *Poly {
@@ -361,7 +360,6 @@ func (it *Interp) expLeaf(f *Field, args []Value, i, j int) *Poly {
 	}
 	return r
 }
-
 
 // completePoly is CompleteFamilies for the predicate variables of a polynomial.
 func completePoly(p *Poly) *Poly {
